@@ -59,9 +59,15 @@ def run(ctx):
   from . import c17
   ctx.borrow(c17.rule_stateless, "R-C08-GUESS", lambda r: r.where.endswith("BatchMultiplyG"))     # the comb memo must be per curve (k*G of another curve accepts / rejects wrongly)
   ctx.borrow(c09.rule_feed, "R-C08-FEED")
+  ctx.borrow(c09.rule_trunc, "R-C08-FEED")        # z is the leftmost order-length bits of the hash on every curve (a wrong z makes every lattice miss)
+  # the key recorded for a signature, and its weak flag, come from the map built for that signature's own curve in this pass (a map kept across curves
+  # hands the i-th signature of a later curve the verdict of the i-th signature of an earlier one) - shared with C02
+  from . import c02
+  ctx.borrow(c02.rule_align, "R-C08-OWN", lambda r: r.where.startswith("ecdsa_sig_checks:"))
+  ctx.borrow(c02.rule_sanitise, "R-C08-OWN", lambda r: r.where.startswith("ecdsa_sig_checks:"))
   ctx.expect("R-C08-GUESS", 9, "comb obligations of BatchMultiplyG, batched formulas, per-curve memo")
-  ctx.expect("R-C08-FEED", 4, "ECDSAValues obligations")
-  ctx.expect("R-C08-OWN", 3, "BiasedBaseCheck, CheckCr50U2f, CheckIssuerKey")
+  ctx.expect("R-C08-FEED", 7, "ECDSAValues obligations + truncation to the order length")
+  ctx.expect("R-C08-OWN", 9, "BiasedBaseCheck, CheckCr50U2f, CheckIssuerKey + key / flag alignment rows shared with C02")
   ctx.expect("R-C08-GROUP", 6, "two checks x (partition, issuer grouping, every curve gets its turn)")
   ctx.expect("R-C08-WINDOW", 3, "sizes, aligned slices, accumulation")
   ctx.expect("R-C08-LCG-TABLE", 18, "18 table entries")
